@@ -13,6 +13,7 @@ Model: Core/Rolling.lean (hand-written from rolling.rs; compared with the real a
 scripted clock on every run); facts about rolling.rs extracted by the translator.
 -/
 import TracingModel.Core.Rolling
+import TracingModel.Lemmas.RollingNames
 
 namespace C16
 open TM.Rolling TM.Gen.RollingFacts
@@ -164,6 +165,27 @@ theorem lands_in_period (k : Kind) (hk : k ≠ .never) (pre suf : Option String)
     rw [c, hkk, hpre, hsuf]
     congr 1
     exact ih t hmr (write s t b) (by rw [← hkk]; exact i) (by rw [k', hkk]) (by rw [p', hpre]) (by rw [s', hsuf])
+
+/-- **C16.names_injective** — for every rotation with a period, every prefix and suffix: two instants get the same file name
+exactly when they lie in the same period (the date the name carries determines the period: the day-number → year-month-day
+conversion is injective — checked over all 146097 days of the 400-year era by kernel evaluation and lifted —, zero-padded
+decimal numbers determine their value, and the `-` separators split the name unambiguously) -/
+theorem names_injective (k : Kind) (hk : k ≠ .never) (pre suf : Option String) (t t' : Nat) :
+    fileName k pre suf t = fileName k pre suf t' ↔ periodIndex k t = periodIndex k t' :=
+  ⟨fileName_injective k hk pre suf t t', name_of_period k pre suf t t'⟩
+
+/-- **C16.same_file_iff_same_period** — hence in every history as in `lands_in_period` two writes are appended to the same
+file exactly when their times lie in the same period: no period's writes are mixed into another period's file -/
+theorem same_file_iff_same_period (k : Kind) (hk : k ≠ .never) (pre suf : Option String) (max : Option Nat) (t0 : Nat)
+    (ws : List (Nat × String)) (hm : Monotone k t0 ws) (i j : Nat) (w w' : Nat × String)
+    (hi : ws[i]? = some w) (hj : ws[j]? = some w') :
+    (landed (S.init k pre suf max t0) ws)[i]? = (landed (S.init k pre suf max t0) ws)[j]? ↔
+      periodIndex k w.1 = periodIndex k w'.1 := by
+  rw [lands_in_period k hk pre suf max t0 ws hm]
+  simp only [List.getElem?_map, hi, hj, Option.map_some, Option.some.injEq]
+  exact names_injective k hk pre suf w.1 w'.1
+
+example : civil 19000 = (2022, 1, 8) ∧ civil 19001 = (2022, 1, 9) ∧ civil 11016 = (2000, 2, 29) := by decide
 
 /-- **C16.no_rotation_backwards** — time standing still or stepping back (anywhere before the deadline)
 never rotates: the open file, the deadline and the set of files are unchanged; the buffer is appended -/
